@@ -902,9 +902,12 @@ def install_ins_stop(mon):
         # standard definitions recomputed from the samples
         lp = lw - logsumexp(lw)
         ess = float(np.exp(-logsumexp(2 * lp)))
-        Zi = np.exp(lw.astype(np.longdouble))
-        Zh = np.exp(np.longdouble(logZ))
-        frac = float(np.sqrt(np.sum((Zi - Zh) ** 2) / (N * (N - 1.0))) / Zh)
+        # se(Z)/Z with every term scaled by the estimate itself, so that the
+        # reference does not depend on the magnitude of the likelihood
+        r = np.exp(lw - logZ)
+        frac = float(np.sqrt(np.sum((r - 1.0) ** 2) / (N * (N - 1.0))))
+        if lw.max() < -700.0:
+            mon.classes.add("ins_stop:weights-below-float64-exp-range")
         it = int(self.iteration)
         if st["prev_logZ"] is None or it == 0:
             dz = np.inf
@@ -929,6 +932,11 @@ def install_ins_stop(mon):
         if not close(float(self.fractional_error), frac, 1e-7):
             V("fractional_error!=se(Z)/Z",
               f"it={it}: {float(self.fractional_error)!r} vs {frac!r}")
+        # documented in nessai: sigma[ln Z] = |sigma[Z] / Z| and
+        # Z_err = exp(sigma[ln Z])
+        if not close(float(self.Z_err), float(np.exp(frac)), 1e-7):
+            V("Z_err!=exp(se(Z)/Z)",
+              f"it={it}: {float(self.Z_err)!r} vs {float(np.exp(frac))!r}")
         vals = {k: float(getattr(self, k)) for k in
                 self.stopping_criterion_aliases}
         st["all"].append(vals)
